@@ -11,9 +11,22 @@ import vlib  # noqa: E402
 
 
 def signature(c, o):
+    """mechanism class of a second-pass drift, from the first differing line of the two passes"""
     d = o["drift"]
-    kind = "ws" if d["ws_only"] else "tokens"
-    return "C06/%s/%s/%s" % (kind, d["stat"], d["node"])
+    l1, l2 = d["line1"], d["line2"]
+    squeeze = lambda x: "".join(x.split())
+    doc = l1.lstrip().startswith("---") or l2.lstrip().startswith("---")
+    if not d["ws_only"]:
+        return "C06/tokens/%s" % (d["stat"] if doc else d["node"])
+    if squeeze(l1) == squeeze(l2):
+        if l1.strip() == l2.strip():
+            return "C06/indent/%s" % ("doc" if doc else d["node"])
+        return "C06/space/%s" % ((d["stat"] if d["stat"] != "none" else "doc") if doc else d["node"])
+    # the same text is distributed over the lines differently: a line-breaking decision changed
+    width = c["cfg"].get("layout", {}).get("max_line_width", 120)
+    if "--" in l1 or "--" in l2:
+        return "C06/reflow/next-to-comment"
+    return "C06/reflow/%s" % ("narrow-width" if width <= 40 else "default-width")
 
 
 def run(ctx):
